@@ -1,4 +1,8 @@
+import FrappyModel.Generated.C14
 import FrappyModel.Generated.C20
 import FrappyModel.Node.Logging
 import FrappyModel.Small.Rotate
+import FrappyModel.Spec.C14
 import FrappyModel.Spec.C20
+import FrappyModel.Timed.StateMachine
+import FrappyModel.Timed.States
